@@ -82,6 +82,14 @@ PairStacks ==
 
 \* nests of shuffles with permutations that do not commute (N = 3, 4), directly and with another layer in between (always
 \* included, also in the quick tier)
+\* an affine layer over double-precision coordinates that translates by -2^22: the queries 2^22 + 5/4 and 2^22 + 1 need 25
+\* significant bits - exact in double, not in float - so a coordinate map evaluated in the wrong precision shows
+BigT == 4194304
+BigAffineL(N) == [k |-> "affine", A |-> [i \in 1..N |-> [c \in 1..(N + 1) |-> IF c = i THEN 1 ELSE IF c = N + 1 THEN 0 - BigT ELSE 0]]]
+IsBigAffine(st) == Head(st).k = "affine" /\ Head(st).A[1][Len(Head(st).A) + 1] = 0 - BigT
+BigStacks == {<<BigAffineL(2), IdentL(2, "double")>>,
+              <<BigAffineL(1), InterpL("linear", 1, "double")>> \o IntTail(1, 2, "double"),
+              <<BigAffineL(3), InterpL("nearest", 3, "double")>> \o IntTail(3, 1, "float")}
 NestStacks ==
   \* a stack whose view is exactly as large as field_view allows (256 bytes = 96 + 72 + 48 + 24 + 16)
   {<<AffineL(1, 3), BackupL(2, 3, 3), ClampL(3, 3)>> \o IntTail(3, 3, "double")}
@@ -140,7 +148,7 @@ Depth3Stacks == IF ~FullDepth3 THEN {}
 
 PairSeq == SetToSeq(PairStacks)
 CoverStacks == {PairSeq[i] : i \in {j \in 1..Len(PairSeq) : j % CoverStride = 0}}
-AllStacks == {st \in CoverStacks \cup SampleStacks \cup NestStacks : WellKinded(st) /\ Len(st) <= 5} \cup {st \in ChainStacks : WellKinded(st)}
+AllStacks == {st \in CoverStacks \cup SampleStacks \cup NestStacks \cup BigStacks : WellKinded(st) /\ Len(st) <= 5} \cup {st \in ChainStacks : WellKinded(st)}
              \cup {st \in Depth3Stacks : WellKinded(st) /\ Len(st) <= 3}
 
 \* ---- coordinates: candidates on the grid; the in-domain ones are those on which Eval is defined
@@ -148,7 +156,8 @@ RealCands == {0, DS, S, S + 3 * DS, 2 * S}                 \* 0, 1/4, 1, 7/4, 2
 IntCands == {0, S, 2 * S, 3 * S}
 TopIsReal(st) == Kind(st).ins \in Floating
 Cands(st) == LET N == Kind(st).n  base == IF TopIsReal(st) THEN RealCands ELSE IntCands IN
-             IF N <= 2 THEN [1..N -> base]
+             IF IsBigAffine(st) THEN [1..N -> {BigT * S + 5 * DS, BigT * S + S}]
+             ELSE IF N <= 2 THEN [1..N -> base]
              ELSE {[k \in 1..N |-> SetToSeq(base)[((j + 2 * k + (j \div 3) * k) % Cardinality(base)) + 1]] : j \in 0..23}
 Queries(st) == {x \in Cands(st) : Eval(st, x) # Undef}
 
